@@ -194,3 +194,39 @@ Proof.
     rewrite H4. unfold st1, complex_step. cbn [areg breg accum]. rewrite Z.add_0_l.
     apply Z.mod_small. rewrite Z.pow_add_r by lia. nia.
 Qed.
+
+(* Restart while busy: the theorems above quantify over an ARBITRARY prior state st0,
+   so a start pulse that arrives while an earlier multiplication is still running
+   (done low, accum and breg holding partial results of other operands) behaves like
+   any other start: the new operands are latched, accum is cleared, done rises within
+   the bound and the product of the NEW operands is held. *)
+Corollary simple_mult_restart_while_busy alen blen A B st0 :
+  0 < alen -> 0 < blen -> 0 <= A < 2 ^ alen -> 0 <= B < 2 ^ blen ->
+  m_done st0 = false ->
+  let st1 := simple_step alen blen true A B st0 in
+  let hold := simple_step alen blen false A B in
+  st1 = MkM A B 0 /\
+  exists d, (d <= Z.to_nat alen)%nat /\
+    (forall j, (j < d)%nat -> m_done (m_run hold j st1) = false) /\
+    (forall k, (d <= k)%nat ->
+       m_done (m_run hold k st1) = true /\ accum (m_run hold k st1) = A * B).
+Proof.
+  intros Ha Hb HA HB _. split; [reflexivity|].
+  apply simple_mult_done_and_product; assumption.
+Qed.
+
+Corollary complex_mult_restart_while_busy alen blen sh A B st0 :
+  0 < alen -> 0 < blen -> (1 <= sh)%nat -> 0 <= A < 2 ^ alen -> 0 <= B < 2 ^ blen ->
+  m_done st0 = false ->
+  let st1 := complex_step alen blen sh true A B st0 in
+  let hold := complex_step alen blen sh false A B in
+  let bound := Z.to_nat ((alen + Z.of_nat sh - 1) / Z.of_nat sh) in
+  st1 = MkM A B 0 /\
+  exists d, (d <= bound)%nat /\
+    (forall j, (j < d)%nat -> m_done (m_run hold j st1) = false) /\
+    (forall k, (d <= k)%nat ->
+       m_done (m_run hold k st1) = true /\ accum (m_run hold k st1) = A * B).
+Proof.
+  intros Ha Hb Hsh HA HB _. split; [reflexivity|].
+  apply complex_mult_done_and_product; assumption.
+Qed.
